@@ -1,0 +1,18 @@
+//! Read-only observation hook (feature `verif-hooks`): exposes the free-interval list.
+use super::*;
+use alloc::vec::Vec;
+
+impl<T> ValueAllocator<T>
+where
+    T: PrimInt + One + Debug,
+{
+    /// Free intervals `(low, high)` in the order the allocator stores them.
+    pub fn verif_intervals(&self) -> Vec<(T, T)> {
+        self.pool.iter().map(|iv| (iv.low, iv.high)).collect()
+    }
+
+    /// Configured range `(lowest, highest)`.
+    pub fn verif_range(&self) -> (T, T) {
+        (self.lowest, self.highest)
+    }
+}
